@@ -33,6 +33,7 @@ pub fn unary_corpus() -> Vec<Value> {
     v.extend(alphabet::mutated_literals());
     v.extend(alphabet::radix_families());
     v.extend(alphabet::integer_digit_strings());
+    v.extend(alphabet::radix_tails());
     alphabet::dedup(v)
 }
 
